@@ -20,6 +20,9 @@ func scenarios(quick bool) []sigh.Scen {
 		{"authentic-then-forged-same-seqno", [][]string{{"attach:a1:A:B", "wait", "send:a1:m1", "wait", "sendas=:a1:f1:C"}, {"attach:b1:B:A"}}},
 		{"authentic-then-tampered-same-seqno", [][]string{{"attach:a1:A:B", "wait", "send:a1:m1", "sendbad=:a1:f2"}, {"attach:b1:B:A", "wait", "ack:b1:last"}}},
 		{"authentic-then-claim-same-seqno", [][]string{{"attach:a1:A:B", "wait", "send:a1:m1", "sendclaim=:a1:f3:B"}, {"attach:b1:B:A"}}},
+		// both sides send at the same time (the race is between the two submissions only)
+		{"both-send-racing", [][]string{{"!setup", "attach:a1:A:B", "attach:b1:B:A", "wait"}, {"send:a1:m1", "send:a1:m2"}, {"send:b1:n1", "ack:b1:last"}}},
+		{"forgery-racing-with-partner-reattach", [][]string{{"!setup", "attach:a1:A:B", "attach:b1:B:A", "wait"}, {"send:a1:m1", "sendas=:a1:f1:C"}, {"cancel:b1", "attach:b2:B:A"}}},
 		{"future-epoch", [][]string{{"attach:a1:A:B", "sende:a1:m1:3"}, {"attach:b1:B:A"}}},
 		{"stale-then-current", [][]string{{"attach:a1:A:B", "sende:a1:m1:1", "sende:a1:m2:2"}, {"attach:b1:B:A"}}},
 		{"no-init", [][]string{{"noinit:a1:A:B"}, {"attach:b1:B:A"}}},
